@@ -376,9 +376,11 @@ func runArrive(c *rig.Ctx, cs Case, m mode) int {
 				case "acquire":
 					t0 := time.Now().UnixNano()
 					nc := remote.VerifC13AcquireOnce(gcps[a.U])
+					// wait for the arrival only if the gateway itself would address one of the scripted servers now
+					// (one-sided: a wait that runs out means nothing arrived in time, never a failure)
 					wait := 60 * time.Millisecond
-					if nc > 0 && wantSrv >= 0 {
-						wait = 3 * time.Second
+					if cf := implClientFor(g, u); nc > 0 && strings.HasPrefix(cf, "url:") && serverOf(strings.TrimPrefix(cf, "url:")) >= 0 {
+						wait = 2 * time.Second
 					}
 					deadline := time.Now().Add(wait)
 					for {
